@@ -1,4 +1,4 @@
-package props
+package c19
 
 // C19 — all storage backends implement the same ordered map with atomic batches.
 //
@@ -32,7 +32,7 @@ import (
 	"verifh/tlc"
 )
 
-func init() { Registry["C19"] = runC19 }
+func init() { core.Register("C19", runC19) }
 
 type kvAct struct {
 	Op  string  `json:"op"`
